@@ -43,11 +43,27 @@ TruthUpToFlip(e, s, c) ==
 H1For(e, c, s) == { j \in DOMAIN e.h1 : e.h1[j].c = c /\ s \in Rng(e.h1[j].fam) }
 PosOfRead(r) == { r.vars[k][1] : k \in DOMAIN r.vars }
 
-(* positions directly linked by one read used for phasing, or by the master block *)
-Links(h, master) ==
+(* With trusted genotypes every position of a read links (the phasable table holds heterozygous sites only, plus - in
+   pedigree mode - the master block of positions homozygous in some family member).  With --distrust-genotypes
+   heterozygosity is decided by the RESULT: a read links the positions at which the super-reads of its sample are
+   heterozygous, and the master block consists of the accessible positions at which the super-reads of some family
+   member are homozygous (H1 records the super-reads, so this is the run's own view of its result). *)
+FamIdx(h, s) == CHOOSE f \in DOMAIN h.fam : h.fam[f] = s
+AccIdx(h, p) == CHOOSE x \in DOMAIN h.acc : h.acc[x] = p
+SRPair(h, s, p) == << h.sr[FamIdx(h, s)][1][AccIdx(h, p)], h.sr[FamIdx(h, s)][2][AccIdx(h, p)] >>
+HetD(h, s, p) == s \in Rng(h.fam) /\ p \in Rng(h.acc) /\ SRPair(h, s, p) \in { <<0, 1>>, <<1, 0>> }
+HomD(h, s, p) == s \in Rng(h.fam) /\ p \in Rng(h.acc) /\ SRPair(h, s, p) \in { <<0, 0>>, <<1, 1>> }
+Master(e, h) ==
+    IF Len(h.fam) > 1 /\ e.genhap
+    THEN IF e.distrust THEN { p \in Rng(h.acc) : \E s \in Rng(h.fam) : HomD(h, s, p) }
+         ELSE Rng(h.hom) \cap Rng(h.acc)
+    ELSE {}
+ReadLinks(e, h, r, p) == p \in PosOfRead(r) /\ (e.distrust => HetD(h, r.s, p))
+Links(e, h) ==
+    LET master == Master(e, h) IN
     { <<p, q>> \in (Rng(h.acc) \X Rng(h.acc)) :
         \/ p = q
-        \/ \E r \in DOMAIN h.reads : p \in PosOfRead(h.reads[r]) /\ q \in PosOfRead(h.reads[r])
+        \/ \E r \in DOMAIN h.reads : ReadLinks(e, h, h.reads[r], p) /\ ReadLinks(e, h, h.reads[r], q)
         \/ (p \in master /\ q \in master) }
 
 RECURSIVE Closure(_, _)
@@ -56,8 +72,7 @@ Closure(S, L) ==
     LET T == S \cup { q \in { l[2] : l \in L } : \E p \in S : <<p, q>> \in L }
     IN IF T = S THEN S ELSE Closure(T, L)
 
-Master(e, h) == IF Len(h.fam) > 1 /\ e.genhap THEN Rng(h.hom) \cap Rng(h.acc) ELSE {}
-CompOf(e, h, p) == Closure({p}, Links(h, Master(e, h)))
+CompOf(e, h, p) == Closure({p}, Links(e, h))
 
 (* two phased variants share a phase set iff connected; the id is 1 + leftmost position of the component *)
 SetsAreComponents(e, s, c) ==
